@@ -192,7 +192,7 @@ def convert(schema, *, doc, version: str, mode: str, _stack=()):
                 del out["required"]
         for name in forbidden:
             out.get("properties", {}).pop(name, None)
-        out = {"allOf": [out] + [{"not": {"required": [name]}} for name in forbidden]}
+        out = {"allOf": [out] + [{"not": {"type": "object", "required": [name]}} for name in forbidden]}
     nullable = (version == "3.0" and schema.get("nullable") is True) or (
         version == "2.0" and schema.get("x-nullable") is True
     )
